@@ -133,8 +133,6 @@ def isSublist [DecidableEq α] : List α → List α → Bool
   | _ :: _, [] => false
   | a :: as, b :: bs => if a = b then isSublist as bs else isSublist (a :: as) bs
 
-variable [DecidableEq α]
-
 /-- the point the outline has to start at -/
 def expectedStart (mid : α → α → α) (pts : List (Pt α)) : Option α :=
   match pts with
@@ -144,6 +142,8 @@ def expectedStart (mid : α → α → α) (pts : List (Pt α)) : Option α :=
     else match splitLastOn pts with
       | some (_, s, _) => some s.pos
       | none => impliedStart mid pts
+
+variable [DecidableEq α]
 
 /-- rule `start`: the path begins with a `MoveTo` at the move point of an open contour / at an
     on-curve point of a closed one (the implied point for off-curves only), and has no other `MoveTo` -/
